@@ -20,6 +20,16 @@ def float_clamp(res, facts, ty, lo, hi):
     from ..terms import PINF_ATOM, NINF_ATOM
     FMAX = Fr(2 ** 128 - 2 ** 104)   # f32::MAX
     parts = [('-inf', 'ninf', 'lo'), ('below', (-FMAX, lo), 'lo'), ('inside', (lo, hi), 'id'), ('above', (hi, FMAX), 'hi'), ('+inf', 'pinf', 'hi'), ('nan', None, 'bound')]
+    # what the conversion makes of the bounds themselves: an out-of-range argument has to produce the very same object, in every
+    # field (a derived quantity cached beside the clamped value must be derived from the clamped value)
+    ref = {}
+    for bname, bval in (('lo', lo), ('hi', hi)):
+        it = Interp(facts)
+        st = State()
+        rs = [o for o in sem_iter(it.run(it.start(path, [Num(Poly.const(bval), 'f32')], state=st))) if o.status == 'returned' and isinstance(o.ret, StructV)]
+        ref[bname] = rs[0].ret if len(rs) == 1 else None
+        res.ob('R-CLAMP', '%s::from|%s bound itself' % (name, bname), ref[bname] is not None and ref[bname].fields[0].term == Poly.const(bval),
+               '%s::from(%s) = %r' % (name, float(bval), ref[bname]), where, key='R-CLAMP:%s:ref:%s' % (name, bname))
     for pname, rng, exp in parts:
         it = Interp(facts)
         st = State()
@@ -53,6 +63,11 @@ def float_clamp(res, facts, ty, lo, hi):
                 c = t.const_value()
                 ok = (not t.is_nan()) and c is not None and c in (lo, hi)
             res.ob('R-CLAMP', inst, ok, '%s::from(x) = %r for x %s; expected %s' % (name, t, pname, {'lo': float(lo), 'hi': float(hi), 'id': 'x', 'bound': 'a bound (never NaN)'}[exp]), where, key='R-CLAMP:' + inst)
+            if ok and exp != 'id' and len(o.ret.fields) > 1:
+                want = [ref[exp]] if exp in ref else [ref['lo'], ref['hi']]
+                whole = any(w is not None and same(o.ret, w) for w in want)
+                res.ob('R-CLAMP', inst + '|whole object equals the bound\'s', whole,
+                       '%s::from(x) = %r for x %s, but the bound itself converts to %r: the two configure differently' % (name, o.ret, pname, [w for w in want]), where, key='R-CLAMP:whole:' + inst)
     # reverse conversion is the identity on the stored value
     rev = 'synth_utils::adsr::<impl core::convert::From<%s> for f32>::from' % ty
     if rev in facts.fns:
